@@ -210,12 +210,37 @@ func runC18R3(c *Ctx, r *Rep) {
 							pos = x.Pos()
 						}
 					}
+				case *ssa.UnOp:
+					// a package-level pointer to a mutable module object handed into the pipeline: whatever is written
+					// through it (MakeSyntaxError fills in file name and line) is visible to every other compilation
+					if x.Op == token.MUL && inPipelinePkg(fn) {
+						if g, ok := x.X.(*ssa.Global); ok {
+							if pt, ok := g.Type().(*types.Pointer); ok { // type of the variable's address
+								if ept, ok := pt.Elem().(*types.Pointer); ok {
+									if n, ok := ept.Elem().(*types.Named); ok && n.Obj().Pkg() != nil && n.Obj().Name() == "Exception" && strings.HasPrefix(n.Obj().Pkg().Path(), modPath) {
+										probs = append(probs, "uses the package-level exception object "+g.Name()+" (shared by all compilations and completed in place by MakeSyntaxError)")
+										pos = x.Pos()
+									}
+								}
+							}
+						}
+					}
 				case ssa.CallInstruction:
 					if f := x.Common().StaticCallee(); f != nil {
 						if obj, ok := f.Object().(*types.Func); ok {
 							if why := badCallee(obj); why != "" {
 								probs = append(probs, "consults "+why+" ("+FuncID(obj)+")")
 								pos = x.Pos()
+							}
+							// object pools / concurrent maps at package level: state that outlives one compilation
+							if obj.Pkg() != nil && obj.Pkg().Path() == "sync" {
+								if sig := obj.Type().(*types.Signature); sig.Recv() != nil {
+									rn := namedTypeName(sig.Recv().Type())
+									if strings.HasSuffix(rn, "sync.Pool") || strings.HasSuffix(rn, "sync.Map") {
+										probs = append(probs, "uses a "+strings.TrimPrefix(rn, "*")+" ("+obj.Name()+"): objects recycled between compilations carry state from one to the next, and between concurrent ones if released too early")
+										pos = x.Pos()
+									}
+								}
 							}
 						}
 					}
@@ -229,4 +254,14 @@ func runC18R3(c *Ctx, r *Rep) {
 			r.okTrivial(key, fn.Pos(), "none")
 		}
 	}
+}
+
+func inPipelinePkg(f *ssa.Function) bool {
+	pp := pkgPathOf(f)
+	for _, rel := range pipelinePkgs {
+		if pp == modPath+"/"+rel {
+			return true
+		}
+	}
+	return false
 }
